@@ -20,7 +20,8 @@ def plan(tier, seed):
     jobs, pairs = [], []
     table = TABLE if tier == "quick" else TABLE + TABLE_T
     for spec, variant, nq, nt in table:
-        for n, B in ([(nq, 2)] if tier == "quick" else [(nq, 2), (nt, 2), (nq, 3)]):
+        # (MTVRP with three rows stays at n=2: the n=3 queries run close to the per-query timeout and become inconclusive on a loaded machine)
+        for n, B in ([(nq, 2)] if tier == "quick" else ([(nq, 2), (nt, 2), (nq, 3)] if spec != "mtvrp" else [(nq, 2), (2, 3)])):
             for pos in range(B):
                 if tier == "quick" and pos == 1 and spec == "mtvrp" and not (variant or "").startswith("mix:"):
                     continue
